@@ -1949,8 +1949,9 @@ Proof.
   - rewrite app_length in Hlen. simpl in Hlen.
     destruct (IH ltac:(lia)) as (evs & Hle & Hc & Hs & Hg & Hp). clear IH.
     rewrite fold_left_app. cbn [fold_left]. set (st := fold_left (ss_step fl g) ops (ss_init cap)) in *.
-    destruct o as [i s rel|i]; unfold ss_step.
-    + rewrite Hr. exists evs. cbn [ss_chan ss_seq ss_ring ss_pend]. rewrite app_length. simpl.
+    destruct o as [i s rel|i|b]; unfold ss_step.
+    + destruct (ss_active st); cbn [negb]; [|exists evs; rewrite app_length; simpl; repeat split; auto; lia].
+      rewrite Hr. exists evs. cbn [ss_chan ss_seq ss_ring ss_pend]. rewrite app_length. simpl.
       repeat split; auto; try lia.
       intros j x. rewrite (aget_aset N.eqb N.eqb_eq). destruct (N.eqb j i); [intros E; inversion E; reflexivity|apply Hp].
     + destruct (aget N.eqb i (ss_pend st)) as [[osq [s rel]]|] eqn:Ei.
@@ -1964,6 +1965,8 @@ Proof.
         -- rewrite Hg. reflexivity.
         -- intros j x. rewrite (aget_adel N.eqb N.eqb_eq). destruct (N.eqb j i); [discriminate|apply Hp].
       * exists evs. rewrite app_length. simpl. repeat split; auto; lia.
+    + (* a role transition touches neither the counter nor the ring *)
+      exists evs. cbn [ss_chan ss_seq ss_ring ss_pend]. rewrite app_length. simpl. repeat split; auto; lia.
 Qed.
 
 Lemma sender_atomic_exact fl g cap ops from to :
